@@ -5,6 +5,23 @@ import math
 from specs import ctc as S
 
 LETTERS2 = ['a', 'b', '<BLANK>']
+ALPHABET = 'abcdefghijklmnopqrstuvwxyz'
+
+
+def wide_alphabet_matrices():
+    """13 letters + blank, only the symbols with indices 1, 2, 11, 12 (and blank) ever probable: prefixes such as (1, 12) and
+    (11, 2), or (11,) and (1, 1), differ although their indices read alike"""
+    C = 14
+
+    def row(d):
+        r = [S.NEG_INF] * C
+        for c, p in d.items():
+            r[c] = math.log(p)
+        return r
+    rows = [row({1: 0.2, 2: 0.2, 11: 0.2, 12: 0.2, 13: 0.2}), row({1: 0.5, 12: 0.25, 13: 0.25}), row({11: 0.5, 2: 0.25, 13: 0.25}),
+            row({1: 0.25, 11: 0.25, 13: 0.5})]
+    mats = [[rows[i] for i in m] for T in (3, 4) for m in itertools.product(range(len(rows)), repeat=T)]
+    return [m for k, m in enumerate(mats) if len(m) == 3 or k % 5 == 0]
 EPS = 1e-7
 
 
@@ -33,7 +50,7 @@ def decode(np, D, logits, k, selector=None, lm=None, scale=1.0, bonus=0.0, eos=F
     kw = {}
     if selector is not None:
         kw['relevant_logits_selector'] = selector
-    dec = D.CTCPrefixLogRawNumpyDecoder(LETTERS2 if len(logits[0]) == 3 else ['a', 'b', 'c', '<BLANK>'], k=k, lm=lm, lm_scale=scale, insertion_bonus=bonus, **kw)
+    dec = D.CTCPrefixLogRawNumpyDecoder(LETTERS2 if len(logits[0]) == 3 else list(ALPHABET[:len(logits[0]) - 1]) + ['<BLANK>'], k=k, lm=lm, lm_scale=scale, insertion_bonus=bonus, **kw)
     arr = np.asarray(logits, dtype=float)
     if want_h:
         boh, h = dec(arr, model_eos=eos, return_h=True, init_h=init)
@@ -45,7 +62,7 @@ def check_c02(np, D, logits, k, pruning):
     """returns list of (clause, detail). pruning=False -> identity selector"""
     C = len(logits[0])
     blank = C - 1
-    letters = 'ab' if C == 3 else 'abc'
+    letters = ALPHABET[:C - 1]
     sel = None if pruning else identity_selector(np)
     boh, _ = decode(np, D, logits, k, selector=sel)
     bad = []
@@ -76,7 +93,8 @@ def check_c02(np, D, logits, k, pruning):
         # nothing pruned: every transcript of non-zero probability, with its exact CTC log-probability
         T = len(logits)
         got = {h.transcript: h.vis_sc for h in hyps}
-        for w in S.all_transcripts(T, C - 1):
+        used = [c for c in range(C - 1) if any(r[c] > S.NEG_INF for r in logits)]     # the other symbols have probability 0
+        for w in (tuple(used[i] for i in w0) for w0 in S.all_transcripts(T, len(used))):
             true = S.ctc_logprob(logits, w, blank)
             t = ''.join(letters[c] for c in w)
             if true > S.NEG_INF and t not in got:
